@@ -157,6 +157,21 @@ def run_hexary(prune, prior, rng):
     else:
         for kname, kmk in BAD_KINDS:
             record(f"at_root.root<{kname}>", (lambda kmk=kmk: t.at_root(kmk()).__enter__()), ("HAtRootGet", "BAD", b"\x01"), 1)
+    # the trie handed out by squash_changes is a pruning trie whatever the outer trie is: a snapshot of it is refused too
+    # (also one level further down); the block is then abandoned, so nothing of this reaches the model's history
+    try:
+        with t.squash_changes() as b:
+            for lvl, bt in (("batch trie", b),):
+                out = guard(lambda bt=bt: bt.at_root(bt.root_hash).__enter__())
+                if bad is None and (out is None or out.tag != 1):
+                    bad = f"at_root on the {lvl} of squash_changes (a pruning trie) was not refused with ValidationError: {out!r}"
+            with b.squash_changes() as b2:
+                out = guard(lambda: b2.at_root(b2.root_hash).__enter__())
+                if bad is None and (out is None or out.tag != 1):
+                    bad = f"at_root on a nested batch trie (a pruning trie) was not refused with ValidationError: {out!r}"
+                raise C.Abort()
+    except C.Abort:
+        pass
     if not prune:
         # the ref_count attribute of a non-pruning trie is refused (bare Exception in the source)
         out = guard(lambda: t.ref_count)
